@@ -1198,7 +1198,39 @@ var ruleTrim = &core.Rule{ID: "R11.5", Min: 2,
 				s.Bad("origin of validated buffer", c.Pos(p.valid.Pos()), fmt.Sprintf("validated buffer flows from %s, which is neither the input nor a re-slice of it", v))
 			}
 		}
+		nBefore := n
 		visit(p.valid.Call.Args[0], map[ssa.Value]bool{})
+		// tolerance of a final character cut off by the limit: some path to the validation shortens the buffer
+		cuts := false
+		var hasCut func(v ssa.Value, seen map[ssa.Value]bool, d int)
+		hasCut = func(v ssa.Value, seen map[ssa.Value]bool, d int) {
+			if seen[v] || d > 8 {
+				return
+			}
+			seen[v] = true
+			switch x := v.(type) {
+			case *ssa.Slice:
+				if x.High != nil {
+					cuts = true
+				}
+				hasCut(x.X, seen, d+1)
+			case *ssa.Phi:
+				for _, e := range x.Edges {
+					hasCut(e, seen, d+1)
+				}
+			case *ssa.Call:
+				if h := x.Call.StaticCallee(); h != nil && core.InMod(h) && h.Blocks != nil {
+					for _, r := range core.Returns(h) {
+						if len(r.Results) > 0 {
+							hasCut(r.Results[0], seen, d+1)
+						}
+					}
+				}
+			}
+		}
+		hasCut(p.valid.Call.Args[0], map[ssa.Value]bool{}, 0)
+		_ = nBefore
+		s.Check(cuts, "validated buffer may be shortened by a cut-off final character", c.Pos(p.valid.Pos()), "a re-slice x[:i] reaches utf8.Valid", "what is validated is the input as it is: a multi-byte character cut off by the limit at the very end makes the whole text invalid, and valid UTF-8 that merely continues beyond the header loses charset=utf-8")
 	}}
 
 // lookBackWindow evaluates the loop that searches the end of the buffer for the start of a cut-off character, on a
